@@ -45,8 +45,9 @@ IntItem(c) ==
            \o (IF c.neg THEN "+negated" ELSE "")]
 
 \* ---------------------------------------------------------------- floats
-FloatNs == {0, 1, 3, 5, 7, 10, 25, 255, 1023, 4097, 65535, 524287, 1048575}
-FloatEs == {0, 1, 2, 3, 5, 9}
+RichF == IOEnv.C30_RICH = "1"
+FloatNs == {0, 1, 3, 10, 255, 65535, 1048575} \cup (IF RichF THEN {5, 7, 25, 1023, 4097, 524287} ELSE {})
+FloatEs == {0, 1, 3, 9} \cup (IF RichF THEN {2, 5} ELSE {})
 FloatVariants == {"plain", "trailing0", "leading0", "underscores", "all"}
 FloatCases == {[fam |-> "float", n |-> n, e |-> e, var |-> v, neg |-> s] : n \in FloatNs, e \in FloatEs, v \in FloatVariants, s \in BOOLEAN}
              \cup {[fam |-> "floatbig", neg |-> s] : s \in BOOLEAN}
@@ -83,8 +84,11 @@ StrItem(c) ==
    cat |-> "str-" \o c.form \o "-" \o c.style, len |-> Len(c.v)]
 
 \* ---------------------------------------------------------------- multi-line """ literals
-Indents == {<<>>, <<SP, SP>>, <<SP, SP, SP, SP>>, <<TAB>>, <<TAB, SP, SP>>}
-LineBodies == {<<>>, <<RawEl(97)>>, <<RawEl(98), RawEl(DQ), RawEl(99)>>, <<EscEl(TAB), RawEl(233)>>, <<RawEl(120), RawEl(SP), EscEl(BS)>>}
+\* C30_RICH = 1: the full indentation / line-body sets (thorough); otherwise a subset that still has every feature
+Rich == IOEnv.C30_RICH = "1"
+Indents == {<<>>, <<SP, SP>>, <<SP, SP, SP, SP>>, <<TAB>>} \cup (IF Rich THEN {<<TAB, SP, SP>>} ELSE {})
+LineBodies == {<<>>, <<RawEl(98), RawEl(DQ), RawEl(99)>>, <<EscEl(TAB), RawEl(233)>>, <<RawEl(120), RawEl(SP), EscEl(BS)>>}
+              \cup (IF Rich THEN {<<RawEl(97)>>} ELSE {})
 Openers == {<<>>, <<RawEl(104), RawEl(105)>>, <<RawEl(SP), RawEl(113)>>}
 MidLines == [ws : Indents, els : LineBodies]
 Layouts(K) ==
@@ -96,6 +100,7 @@ BlockItem(lay) ==
       dev == DevTripleValue(lay)
       tab == TabInIndent(lay)
       lead == LeadingBlank(lay)
+      onlyBlank == lay.opener # <<>> /\ NonBlank(lay) = {}      \* text after the opener, then only blank lines
   IN [kind |-> "block", spelling |-> CpJ(TripleText(lay)), line |-> Line("report_str", TripleText(lay)),
       expect |-> Reports("report_str", CpJ(v)),
       cat |-> "block-" \o (IF lay.opener = <<>> THEN "opener-newline" ELSE "opener-text") \o
@@ -103,7 +108,9 @@ BlockItem(lay) ==
               (IF tab THEN "+tab-indent" ELSE "") \o (IF lead THEN "+leading-blank" ELSE "") \o
               (IF CommonIndent(lay) # <<>> THEN "+indented" ELSE ""),
       lines |-> Len(lay.mids)] @@
-     (IF ~dev.ok \/ dev.v # v THEN [known |-> [key |-> "C30|triple-quote|" \o (IF tab THEN "tab-in-common-indentation" ELSE "")
+     (IF onlyBlank THEN [known |-> [key |-> "C30|triple-quote|text-after-opener-then-only-blank-lines|arithmetic-overflow",
+                                    expect |-> [compile |-> "panic"]]]
+      ELSE IF ~dev.ok \/ dev.v # v THEN [known |-> [key |-> "C30|triple-quote|" \o (IF tab THEN "tab-in-common-indentation" ELSE "")
                                            \o (IF tab /\ lead THEN "+" ELSE "") \o (IF lead THEN "leading-blank-line-dropped" ELSE "")
                                            \o (IF ~tab /\ ~lead THEN "other" ELSE ""),
                                   expect |-> IF dev.ok THEN Reports("report_str", CpJ(dev.v)) ELSE Diag]]
